@@ -314,6 +314,10 @@ def rule_b(ctx: Context, R: Reporter):
         ok = bool(ds) and all(d.kind == "assign" and d.path == (1,) and isinstance(d.value, ast.Call) and wfn in ctx.res.call_targets(fi, d.value)
                               and const_value(call_arg(d.value, 0, "beta_final") or wfn.param_default("beta_final")) in (1, 1.0)
                               and cfg.reaches(loop.id, d.node.id) and d.node.id not in body for d in ds)
+    if isinstance(a.value, ast.Subscript) and isinstance(a.value.value, ast.Call) and const_value(a.value.slice) in (1, -1):
+        # compute(1.0)[1] written in the store itself
+        c_ = a.value.value
+        ok = wfn in ctx.res.call_targets(fi, c_) and const_value(call_arg(c_, 0, "beta_final") or wfn.param_default("beta_final")) in (1, 1.0)
     R.check("C12.b", "final logz is the evidence component of the weight function at beta=1, computed after the loop", ok, fi, a.call,
             msg=f"{fi.short}: the logz stored after the loop (`{unparse(a.value)}`) is not the second result of {wfn.name}(1.0) evaluated after the last iteration",
             key="final-logz")
